@@ -224,8 +224,7 @@ func (sc *Scenario) has(kind string) bool {
 func (w *world) open() error {
 	defer w.register("init")()
 	w.startPhys = w.tso.clockMs()
-	cluster := mocktikv.NewCluster(nil)
-	mocktikv.BootstrapWithSingleStore(cluster)
+	cluster := mocktikv.NewCluster(nil) // no stores, no regions: nothing but the TSO is used
 	w.pd = &simPD{Client: mocktikv.NewPDClient(cluster), w: w}
 	o, err := oracles.NewPdOracle(w.pd, &oracles.PDOracleOptions{UpdateInterval: time.Duration(w.sc.IntervalUs) * time.Microsecond})
 	if err != nil {
